@@ -17,6 +17,7 @@ import TrVerif.Props.C12MapStatus
 import TrVerif.Props.C12
 import TrVerif.Props.C12Full
 import TrVerif.Props.C12FullRev
+import TrVerif.Props.C12FullRoute
 namespace Tr
 
 def nvDs : Dataset :=
